@@ -715,3 +715,18 @@ func (e *Engine) onlyCalledFromRegistration(fn *ssa.Function) bool {
 	}
 	return e.regOnly[fn]
 }
+
+// ifaceContractsOf: the contracts written for an interface method (`*.Name`) that fn implements by name
+func (e *Engine) ifaceContractsOf(fn *ssa.Function) []*Contract {
+	var out []*Contract
+	if fn.Signature.Recv() == nil || fn.Pkg == nil {
+		return nil
+	}
+	for key, ic := range e.ctrs {
+		if strings.Contains(key, ".*.") && strings.HasSuffix(key, ".*."+fn.Name()) {
+			out = append(out, ic)
+		}
+	}
+	sort.Slice(out, func(i, j int) bool { return out[i].Key < out[j].Key })
+	return out
+}
